@@ -227,6 +227,8 @@ def gen_cases(rng, tier):
             fam = fam_for(shp)
             fam.setdefault("k", rand_k(rng, shp))
             wdata = [1 if rng.random() < 0.5 else 0 for _ in range(math.prod(shp))]
+            if not any(wdata):               # an all-zero mask is not generated (empty sptensor layout, see A-51)
+                wdata[rng.randrange(len(wdata))] = 1
             wsubs, wvals = tgen.dense_to_sparse(shp, wdata, rng, rng.choice(["sorted", "reversed", "random"]))
             for rep, wk in (("dense", "dense"), ("sparse", "sparse"), ("k", "dense"), ("k", "sparse")):
                 W = X_dense(shp, wdata) if wk == "dense" else X_sparse(shp, wsubs, wvals)
@@ -375,8 +377,15 @@ def coq_check(c, o):
             J = len(U[0]) if a["tr"] else len(U)
             rs[m] = J
             items.append(f"({m}%nat, ({J}%nat, {gmat(U)}))")
-        f = f"(zsp_ttm_list {dX} {gnlist(shp)} [{'; '.join(items)}] {'true' if a['tr'] else 'false'})"
-        return gmatch(rs, f, ob)
+        trb = 'true' if a['tr'] else 'false'
+        f = f"(zsp_ttm_list {dX} {gnlist(shp)} [{'; '.join(items)}] {trb})"
+        e = gmatch(rs, f, ob)
+        if X["rep"] == "dense" and ob["k"] == "dense" and obs_ints(ob):
+            m = tgen.gdense(X["shape"], X["data"])
+            for n_, U in sorted(prs, key=lambda p: p[0]):        # pyttb multiplies mode by mode in ascending mode order
+                m = f"(zimpl_ttm_dense {m} {n_} {gmat(U)} {len(U[0]) if a['tr'] else len(U)} {trb})"
+            e += f" && dense_eqb {m} {tgen.gdense(ob['shape'], ob['data'])}"
+        return e
     if c.op in ("mttkrp", "mttkrps"):
         U = a["U"]
         R = len(U["factors"][0][0])
@@ -387,14 +396,26 @@ def coq_check(c, o):
             f = f"(fun i_ => zsp_mttkrp {dX} {gnlist(shp)} {n} {lam} {Us} (nth 0 i_ 0%nat) (nth 1 i_ 0%nat))"
             return gmatch([shp[n], R], f, obn)
         if c.op == "mttkrp":
-            return one(a["n"], ob)
+            e = one(a["n"], ob)
+            if X["rep"] == "dense" and ob["k"] == "array" and obs_ints(ob):
+                fs = [[list(r) for r in f] for f in U["factors"]]
+                if U["weights"] is not None:          # get_mttkrp_factors: weights absorbed into factor 1 (n = 0) or factor 0
+                    k = 1 if a["n"] == 0 else 0
+                    fs[k] = [[x * w for x, w in zip(r, U["weights"])] for r in fs[k]]
+                e += (f" && dense_eqb (zimpl_mttkrp_dense {tgen.gdense(X['shape'], X['data'])} "
+                      f"[{'; '.join(gmat(f) for f in fs)}] {a['n']} {R}) {tgen.gdense(ob['shape'], ob['data'])}")
+            return e
         if ob["k"] != "list" or len(ob["items"]) != N:
             return "false"
         return " && ".join(one(n, ob["items"][n]) for n in range(N))
     if c.op == "innerprod":
         if ob["k"] != "scalar" or not isinstance(ob["v"], int):
             return "false"
-        return f"(zsp_innerprod {dX} {gden(a['Y'])} {gnlist(shp)} =? {gz(ob['v'])})%Z"
+        e = f"(zsp_innerprod {dX} {gden(a['Y'])} {gnlist(shp)} =? {gz(ob['v'])})%Z"
+        if X["rep"] == "dense" and a["Y"]["rep"] == "dense":
+            e += (f" && (zimpl_innerprod_dense {tgen.gdense(X['shape'], X['data'])} "
+                  f"{tgen.gdense(a['Y']['shape'], a['Y']['data'])} =? {gz(ob['v'])})%Z")
+        return e
     if c.op == "norm":
         q = gq(Fraction(ob["v"]))
         return f"qclose tol9 (Qcmult {q} {q}) (Q2Qc (inject_Z (zsp_normsq {dX} {gnlist(shp)})))"
@@ -611,7 +632,9 @@ def _a05_pair(x, y):
     for t, s in ((x, y), (y, x)):
         if t["rep"] == "t" and s["rep"] == "sparse" and len(s["subs"]) > 0:
             if math.prod(shape_of(t)) < math.prod(t["core_shape"]):
-                continue           # full() route
+                if len(s["subs"]) == 1:      # full() route: dense.innerprod(sptensor with one stored nonzero)
+                    return True
+                continue
             nz, cells = _ttm_all_T(t, s)
             if nz == 1:            # Z = other.ttm(factors, transpose=True) has one nonzero; Z.innerprod(core) with a dense core
                 return True
@@ -747,7 +770,8 @@ def _wit_a02():
 def _wit_a50():
     def f(np, ttb):
         K = ttb.ktensor([np.array([[1.], [2.]]), np.array([[3.]])], np.array([2.]))
-        return K.ttv([np.array([5.])], dims=np.array([1])).full().data.ravel()
+        r = K.ttv([np.array([5.])], dims=np.array([1]))
+        return r.weights[0] * r.factor_matrices[0].ravel()
     return _w(f, [30, 60])
 
 
